@@ -97,3 +97,53 @@ func VH_C11_faults() {
 	vhCheckReads("C11.repaired", db2, disk)
 	vhCheckSearch("C11.repaired", db2, disk, "A")
 }
+
+// VH_C11_inconsistent: "... or an index is internally inconsistent": the
+// index section of schema.json is edited so that the uuid sets still agree
+// with the files but a field index is wrong (entry attributed to an unknown
+// or duplicated object id, entry missing, order broken): the first load and
+// must report it; an untouched schema must load and pass Control.
+func VH_C11_inconsistent() {
+	db, root := vhOpenDB(vhCfgs[0])
+	var rows []vhRow
+	for k := 0; k < 2; k++ {
+		o := vhNewObj()
+		vAssert("C11.inc.insert", db.InsertOrUpdate(o) == nil)
+		rows = append(rows, vhRow{o.UUID(), *o})
+	}
+	vAssert("C11.inc.close", db.Close() == nil)
+	sch := root + "/sod.vObj/schema.json"
+	field := []string{"A", "S"}[vChoice("field", 2)]
+	base := "index/fields/" + field + "/index/"
+	damaged := true
+	switch vChoice("damage", 6) {
+	case 0:
+		damaged = false
+	case 1: // an entry attributed to an object id nobody has
+		vAssert("C11.inc.edit", vJSONSet(sch, base+"0/1", "99"))
+	case 2: // both entries attributed to the same object
+		vAssert("C11.inc.edit", vJSONSet(sch, base+"0/1", "0") && vJSONSet(sch, base+"1/1", "0"))
+	case 3: // one field index lost an entry
+		vAssert("C11.inc.edit", vJSONDel(sch, base+"0"))
+	case 4: // order broken (only when the two values differ)
+		vAssert("C11.inc.edit", vJSONSwap(sch, base+"0/0", base+"1/0"))
+		if field == "A" {
+			damaged = rows[0].o.A != rows[1].o.A
+		} else {
+			damaged = rows[0].o.S != rows[1].o.S
+		}
+	case 5: // ids exchanged between the entries of one field: values attributed to the wrong objects
+		vAssert("C11.inc.edit", vJSONSwap(sch, base+"0/1", base+"1/1"))
+		damaged = false // sets and order still consistent: not detectable from the index alone
+	}
+	// An inconsistent index is reported by the load with an error that is not of
+	// the ErrIndexCorrupted class (the schema is then not usable, Repair does not
+	// apply): the oracle asks for "an error", not for the class.  DB.Control only
+	// inspects loaded schemas, so it is consulted in the undamaged cases only.
+	db2 := Open(root)
+	_, err := db2.Schema(&vObj{})
+	vAssert("C11.inc.load.reported_iff_damaged", vIff(err != nil, damaged))
+	if err == nil {
+		vAssert("C11.inc.control.no_false_positive", db2.Control() == nil)
+	}
+}
